@@ -1663,18 +1663,25 @@ def rule_owner(ctx, classes=SKETCH_CLASSES):
         shm_attrs = _shm_backed(F, d.cls)
         # locals that merely hold self.shm / self.existing_shm (`owned = self.shm`, possibly `= None` in an except arm)
         alias = {}
-        for n in walk_no_nested(d.node):
-            if isinstance(n, ast.Assign) and len(n.targets) == 1 and isinstance(n.targets[0], ast.Name):
+        _assigns = [n for n in walk_no_nested(d.node) if isinstance(n, ast.Assign) and len(n.targets) == 1 and isinstance(n.targets[0], ast.Name)]
+        for n in _assigns + _assigns + _assigns:          # (aliases of aliases: the walk order is not the program order)
+            if True:
                 nm, a_ = n.targets[0].id, self_attr(n.value)
                 # `getattr(self, "shm", None)`: the handle, or a falsy stand-in when the attribute was never set (what the
                 # `try: ... except AttributeError: pass` around the original test is for)
                 v_ = n.value
+                # `in_use = bool(handle)`: a name for the handle's truth value -- tested, it tests the handle
+                if a_ is None and isinstance(v_, ast.Call) and dotted(v_.func) == "bool" and len(v_.args) == 1 and not v_.keywords:
+                    a_ = self_attr(v_.args[0]) or (alias.get(v_.args[0].id) if isinstance(v_.args[0], ast.Name) else None)
+                if a_ is None and isinstance(v_, ast.Name) and alias.get(v_.id):
+                    a_ = alias.get(v_.id)
                 if a_ is None and isinstance(v_, ast.Call) and dotted(v_.func) == "getattr" and len(v_.args) == 3 and dotted(v_.args[0]) == "self" \
                         and isinstance(v_.args[1], ast.Constant) and isinstance(v_.args[2], ast.Constant) and not v_.args[2].value:
                     a_ = v_.args[1].value
                 if a_ in ("shm", "existing_shm"):
                     alias[nm] = None if alias.get(nm, a_) != a_ else a_
-                elif not (isinstance(n.value, ast.Constant) and n.value.value is None) and nm in alias:
+                elif not (isinstance(n.value, ast.Constant) and n.value.value is None) and nm in alias \
+                        and not (isinstance(v_, (ast.Name, ast.Call)) and alias.get(nm)):
                     alias[nm] = None
 
         def attr_of(e):
